@@ -864,7 +864,9 @@ static size_t rich_general_names(uint8_t *g, size_t max, const uint8_t *name, si
 	ok &= x509_general_names_add_other_name(g, &l, max, oid1, 5, val, sizeof val) == 1;
 	ok &= x509_general_names_add_general_name(g, &l, max, X509_gn_rfc822_name, (const uint8_t *)"a@b.example", 11) == 1;
 	ok &= x509_general_names_add_general_name(g, &l, max, X509_gn_dns_name, (const uint8_t *)"www.example.org", 15) == 1;
-	ok &= x509_general_names_add_general_name(g, &l, max, X509_gn_directory_name, name, namelen) == 1;
+	{	/* directoryName is EXPLICIT: its value is the Name SEQUENCE itself */
+		uint8_t nm[300]; uint8_t *np = nm; size_t nml = 0; ok &= asn1_sequence_to_der(name, namelen, &np, &nml) == 1;
+		ok &= x509_general_names_add_general_name(g, &l, max, X509_gn_directory_name, nm, nml) == 1; }
 	ok &= x509_general_names_add_edi_party_name(g, &l, max, ASN1_TAG_UTF8String, (const uint8_t *)"assigner", 8, ASN1_TAG_PrintableString, (const uint8_t *)"party", 5) == 1;
 	ok &= x509_general_names_add_general_name(g, &l, max, X509_gn_uniform_resource_identifier, (const uint8_t *)"http://a.example/", 17) == 1;
 	ok &= x509_general_names_add_general_name(g, &l, max, X509_gn_ip_address, ip, 4) == 1;
@@ -882,6 +884,11 @@ static void do_printall(const char *kind) {
 	gl = rich_general_names(gns, sizeof gns, name, namelen); if (!gl) { printf("ERR gns"); fclose(fp); return; }
 	r_name = x509_name_print(fp, 0, 0, "name", name, namelen);
 	r_gns = x509_general_names_print(fp, 0, 0, "generalNames", gns, gl);
+	if (!strcmp(kind, "gn")) {      /* every GeneralName of the list rendered on its own: the list renderer does not report a member's failure */
+		const uint8_t *cp = gns, *d; size_t cl = gl, dl; int ch; char each[64]; size_t n = 0;
+		while (cl && n < 30) { if (x509_general_name_from_der(&ch, &d, &dl, &cp, &cl) != 1) { printf("ERR walk"); fclose(fp); return; }
+			each[n++] = (char)('0' + ch); each[n++] = x509_general_name_print(fp, 0, 0, "GeneralName", ch, d, dl) == 1 ? '+' : '-'; }
+		each[n] = 0; fclose(fp); printf("list=%d each=%s", r_gns, each); return; }
 	if (!strcmp(kind, "cert")) {
 		uint8_t *cert, *q; size_t clen = 0; const uint8_t *e2; size_t e2l;
 		ok &= x509_exts_add_authority_key_identifier(ex, &el, sizeof ex, -1, raw, 20, gns, gl, serial, 4) == 1;
